@@ -30,7 +30,25 @@ let panic_str = function
 let rec firstn n l = if n = 0 then [] else match l with [] -> [] | x :: r -> x :: firstn (n-1) r
 let pairs_str l = String.concat "," (List.map (fun (k, v) -> key_str k ^ "=" ^ val_str v) l)
 
+let rec int_of_nat = function O -> 0 | S n -> 1 + int_of_nat n
+let search_mode () =
+  let ic = open_in Sys.argv.(2) and oc = open_out Sys.argv.(3) in
+  let n = ref 0 in
+  (try while true do
+    let line = input_line ic in
+    if String.length line > 2 && String.sub line 0 2 = "Q " then begin
+      match List.filter (fun s -> s <> "") (String.split_on_char ' ' line) with
+      | _ :: k :: vs ->
+        let key = key_of_string k and vs = List.map key_of_string vs in
+        let pr = function Ok i -> string_of_int (int_of_nat i) | Panic p -> "panic=" ^ panic_str p in
+        Printf.fprintf oc "%d ge=%s le=%s\n" !n (pr (h_search_ge key vs)) (pr (h_search_le key vs)); incr n
+      | _ -> ()
+    end
+  done with End_of_file -> ());
+  close_out oc
+
 let () =
+  if Array.length Sys.argv > 3 && Sys.argv.(1) = "search" then (search_mode (); exit 0);
   let ic = open_in Sys.argv.(1) and oc = open_out Sys.argv.(2) in
   let id = ref "" and order = ref O and invbad = ref 0 and nodump = ref false in
   (try while true do
